@@ -3,14 +3,15 @@ package tests_test
 // Bounded stand-in for the NUMERIC statements of C10 / C11 that the contracts of RebalanceBondTokenWeights do not decide (they need
 // sums over validators and the exchange-rate arithmetic of x/staking): seeded random histories mix alliance Delegate / Undelegate /
 // Redelegate, native delegations and undelegations, reward-weight changes, jailing/unjailing and slashes; every step ends with the
+// (fees in the staking denom are distributed to the bonded validators now and then)
 // staking validator-set update and the module's real EndBlocker (run until the rebalance flag is quiescent, at most 3 times). Facts:
 //   bonded_validators_at_target        - every bonded validator's alliance-minted stake = sum over started assets of
 //                                        weight x native bonded x (validator's share of the asset's BONDED validator shares), within 2 base units
 //   unbonded_validators_not_adjusted   - the module's stake on a validator that is not bonded does not change in the rebalance
 //   module_holds_no_staking_denom      - after the end of the block the module account holds no staking denom (C11)
-//   net_supply_unchanged               - staking-denom supply minus the module's own stake (on every validator) stays what it was at the start,
-//                                        within 1 base unit per bonded validator and step (C11)
-//   no_user_receives_staking_denom     - users who never held the staking denom still hold none (C11; reward claims are not made here)
+//   net_supply_unchanged               - staking-denom supply minus the module's own stake (on every validator) and liquid balance is changed neither by
+//                                        an alliance operation nor by the end of a block, within 3 base units per bonded validator (C11)
+//   no_user_receives_staking_denom     - users who never held the staking denom hold at most the fees that were distributed as rewards (C11)
 // This is a bounded check, never counted as proved. Run by `gvc check C10|C11 --tier thorough`.
 
 import (
@@ -23,6 +24,9 @@ import (
 
 	"cosmossdk.io/math"
 	sdk "github.com/cosmos/cosmos-sdk/types"
+	abcitypes "github.com/cometbft/cometbft/abci/types"
+	authtypes "github.com/cosmos/cosmos-sdk/x/auth/types"
+	minttypes "github.com/cosmos/cosmos-sdk/x/mint/types"
 	stakingtypes "github.com/cosmos/cosmos-sdk/x/staking/types"
 	teststaking "github.com/cosmos/cosmos-sdk/x/staking/testutil"
 	"github.com/stretchr/testify/require"
@@ -120,6 +124,7 @@ func TestBoundedRebalance(t *testing.T) {
 		}
 		require.NoError(t, endBlock(ctx))
 		net0 := netSupply(ctx)
+		minted := math.ZeroInt()
 		now := start
 		slack := int64(0)
 		for step := 0; step < 14; step++ {
@@ -130,6 +135,8 @@ func TestBoundedRebalance(t *testing.T) {
 			amt := []math.Int{math.NewInt(1), math.NewInt(1_000), math.NewInt(1_000_000), math.NewInt(333_333_333)}[rng.Intn(4)]
 			cc, write := ctx.CacheContext()
 			desc := ""
+			externalOp := false // native staking, fees, slashes, jailing: may change the net supply by themselves
+			netBeforeOp := netSupply(ctx)
 			var err error
 			func() {
 				defer func() {
@@ -137,7 +144,53 @@ func TestBoundedRebalance(t *testing.T) {
 						err = fmt.Errorf("panic: %v", r)
 					}
 				}()
-				switch op := rng.Intn(12); {
+				switch op := rng.Intn(15); {
+				case op == 14:
+					// a REAL staking slash (burns the validator's tokens pro rata: exchange rate != 1 afterwards; fires the module's slash hook)
+					if vi == 0 {
+						vi = 1
+					}
+					sv, e := app.StakingKeeper.GetValidator(cc, vals[vi])
+					if e != nil || !sv.IsBonded() {
+						err = fmt.Errorf("not bonded")
+						return
+					}
+					cons, _ := sv.GetConsAddr()
+					frac := []math.LegacyDec{math.LegacyNewDecWithPrec(1, 2), math.LegacyNewDecWithPrec(5, 2), math.LegacyNewDecWithPrec(1, 1)}[rng.Intn(3)]
+					desc = fmt.Sprintf("staking Slash(val %d, %s)", vi, frac)
+					_, err = app.StakingKeeper.Slash(cc, cons, cc.BlockHeight(), sv.ConsensusPower(app.StakingKeeper.PowerReduction(cc)), frac)
+					externalOp = true
+				case op >= 12:
+					externalOp = true
+					// fees paid in the staking denom are distributed to the bonded validators (real tokens: the expected net supply grows by them)
+					fee := math.NewInt(int64(1_000_000 * (1 + rng.Intn(5))))
+					desc = fmt.Sprintf("fees of %s distributed to the bonded validators", fee)
+					fees := sdk.NewCoins(sdk.NewCoin(bondDenom, fee))
+					if err = app.BankKeeper.MintCoins(cc, minttypes.ModuleName, fees); err != nil {
+						return
+					}
+					if err = app.BankKeeper.SendCoinsFromModuleToModule(cc, minttypes.ModuleName, authtypes.FeeCollectorName, fees); err != nil {
+						return
+					}
+					var votes []abcitypes.VoteInfo
+					power := int64(0)
+					for _, va := range vals {
+						sv, e := app.StakingKeeper.GetValidator(cc, va)
+						if e != nil || !sv.IsBonded() {
+							continue
+						}
+						cons, _ := sv.GetConsAddr()
+						votes = append(votes, abcitypes.VoteInfo{Validator: abcitypes.Validator{Address: cons, Power: 1}})
+						power++
+					}
+					if power == 0 {
+						err = fmt.Errorf("no bonded validator")
+						return
+					}
+					err = app.DistrKeeper.AllocateTokens(cc, power, votes)
+					if err == nil {
+						minted = minted.Add(fee)
+					}
 				case op < 4:
 					desc = fmt.Sprintf("alliance Delegate(user %d, val %d, %s%s)", ui, vi, amt, denoms[di])
 					v, e := app.AllianceKeeper.GetAllianceValidator(cc, vals[vi])
@@ -165,6 +218,7 @@ func TestBoundedRebalance(t *testing.T) {
 					}
 					_, err = app.AllianceKeeper.Redelegate(cc, users[ui], v, w, sdk.NewCoin(denoms[di], amt))
 				case op < 9:
+					externalOp = true
 					desc = fmt.Sprintf("native Delegate(val %d, %s)", vi, amt)
 					sv, e := app.StakingKeeper.GetValidator(cc, vals[vi])
 					if e != nil {
@@ -173,6 +227,7 @@ func TestBoundedRebalance(t *testing.T) {
 					}
 					_, err = app.StakingKeeper.Delegate(cc, native, amt, stakingtypes.Unbonded, sv, true)
 				case op < 10:
+					externalOp = true
 					desc = fmt.Sprintf("native Undelegate(val %d, everything)", vi)
 					d, e := app.StakingKeeper.GetDelegation(cc, native, vals[vi])
 					if e != nil {
@@ -186,6 +241,7 @@ func TestBoundedRebalance(t *testing.T) {
 					desc = fmt.Sprintf("UpdateAllianceAsset(%s weight -> %s)", denoms[di], a.RewardWeight)
 					err = app.AllianceKeeper.UpdateAllianceAsset(cc, a)
 				default:
+					externalOp = true
 					if vi == 0 {
 						vi = 1
 					}
@@ -208,6 +264,12 @@ func TestBoundedRebalance(t *testing.T) {
 				continue
 			}
 			write()
+			if !externalOp {
+				if d := netSupply(ctx).Sub(netBeforeOp).Abs(); d.GT(math.NewInt(3)) {
+					fact("net_supply_unchanged", "history %d step %d: %s itself changed supply - the module's own stake by %s", hist, step, desc, netSupply(ctx).Sub(netBeforeOp))
+				}
+			}
+			netBeforeEnd := netSupply(ctx)
 			before := map[string]math.LegacyDec{}
 			status := map[string]bool{}
 			for _, va := range vals {
@@ -271,14 +333,17 @@ func TestBoundedRebalance(t *testing.T) {
 			if bal := app.BankKeeper.GetBalance(ctx, moduleAddr, bondDenom); !bal.IsZero() {
 				fact("module_holds_no_staking_denom", "history %d step %d after %s: module account holds %s", hist, step, desc, bal)
 			}
-			slack += nBonded*3 + 1
-			if d := netSupply(ctx).Sub(net0).Abs(); d.GT(math.NewInt(slack)) {
-				fact("net_supply_unchanged", "history %d step %d after %s: supply - alliance bonded drifted by %s (allowed %d)", hist, step, desc, netSupply(ctx).Sub(net0), slack)
+			slack = nBonded*3 + 1
+			if d := netSupply(ctx).Sub(netBeforeEnd).Abs(); d.GT(math.NewInt(slack)) {
+				fact("net_supply_unchanged", "history %d step %d after %s: the end of the block changed supply - the module's own stake by %s (allowed %d)", hist, step, desc, netSupply(ctx).Sub(netBeforeEnd), slack)
 			}
-			for i, u := range users {
-				if bal := app.BankKeeper.GetBalance(ctx, u, bondDenom); !bal.IsZero() {
-					fact("no_user_receives_staking_denom", "history %d step %d after %s: user %d holds %s", hist, step, desc, i, bal)
-				}
+			_ = net0
+			held := math.ZeroInt()
+			for _, u := range users {
+				held = held.Add(app.BankKeeper.GetBalance(ctx, u, bondDenom).Amount)
+			}
+			if held.GT(minted) {
+				fact("no_user_receives_staking_denom", "history %d step %d after %s: users hold %s of the staking denom although only %s of fees (real tokens, paid out as rewards) ever existed outside the module", hist, step, desc, held, minted)
 			}
 		}
 	}
